@@ -205,7 +205,10 @@ class FnCompiler:
                 return code, B, pure
             c2, t2, p2 = self.expr(right, env)
             if op in ("In", "NotIn"):
-                if isinstance(t2, tuple) and t2[0] == "dict" and t2[1] == t1:
+                if isinstance(t2, tuple) and t2[0] == "dict" and t2[1] == S and t1 == O:
+                    # an object that may or may not be a string, looked up among string keys
+                    code, pure = self.combine([(c2, p2), (c1, p1)], lambda d, k: "(obj_in_dict %s %s)" % (d, k))
+                elif isinstance(t2, tuple) and t2[0] == "dict" and t2[1] == t1:
                     f = "d_mem %s" % eqb_of(t1)
                     code, pure = self.combine([(c2, p2), (c1, p1)], lambda d, k: "(%s %s %s)" % (f, d, k))
                 elif t2 == L(Z) and t1 == Z:
@@ -422,6 +425,10 @@ class FnCompiler:
                 return code, Z, pure
             if ast.unparse(f) == "copy.copy" and len(e.args) == 1:
                 return self.expr(e.args[0], env)              # values of the model are immutable
+            if f.attr == "keys" and not e.args:                             # only ever used for membership tests here
+                c, t, p = self.expr(f.value, env)
+                if isinstance(t, tuple) and t[0] == "dict":
+                    return c, t, p
             if f.attr == "copy" and not e.args:                             # x.copy() of a list / dict
                 c, t, p = self.expr(f.value, env)
                 if isinstance(t, tuple) and t[0] in ("list", "dict"):
@@ -812,6 +819,9 @@ class FnCompiler:
             self.note_ret(ty)
             return tuple_val([self.key_var(x) for x in extras_k]), ty, True
         code, ty, pure = compiled
+        if self.spec.get("ret") == O and ty == S:
+            code, pure = self.combine([(code, pure)], lambda a: "(OStr %s)" % a)
+            ty = O
         if extras_k:
             ty = T(ty, *[env[x] for x in extras_k])
             extras = [self.key_var(x) for x in extras_k]
@@ -853,6 +863,9 @@ class FnCompiler:
                 env[kk] = t
                 binders.append("(%s : %s)" % (self.key_var(kk), coq_type(t)))
         binders += ["(%s : %s)" % (vname(n), coq_type(t)) for n, t in spec["params"]]
+        for gname, gt in spec.get("globals", []):
+            env[gname] = gt
+            binders.append("(%s : %s)" % (vname(gname), coq_type(gt)))
 
         def end(env2):
             if self.is_init or spec.get("mutates"):
@@ -873,8 +886,8 @@ class FnCompiler:
             if not i0 < i1:
                 raise Fail("%s: empty fragment" % spec["qual"])
             stmts = [x for x in stmts[i0:i1] if ast.unparse(x).split("\n")[0] not in spec.get("skip", [])]
-            env = {n: t for n, t in frag["inputs"]}
-            binders = ["(%s : %s)" % (vname(n), coq_type(t)) for n, t in frag["inputs"]]
+            env = {n: t for n, t in frag["inputs"] + spec.get("globals", [])}
+            binders = ["(%s : %s)" % (vname(n), coq_type(t)) for n, t in frag["inputs"] + spec.get("globals", [])]
 
             def end(env2):                                   # noqa: F811
                 outs = frag["outputs"]
@@ -982,6 +995,22 @@ UNITS["PyDispatchEig"] = ("xitorch/linalg/symeig.py", [
          fragment={"from": "if method is None:", "until": "if method == 'exacteig':", "inputs": _OPIN, "outputs": ["method"]},
          subst=_OPSUB, skip=["if neig is None:", "if is_debug_enabled():"]),
 ])
+UNITS["PyDispatchRF"] = ("xitorch/optimize/rootfinder.py", [
+    dict(qual="_get_rootfinder_default_method", coq="rf_default_method", params=[("method", O)], ret=O),
+    dict(qual="_get_equilibrium_default_method", coq="equil_default_method", params=[("method", O)], ret=O),
+    dict(qual="_get_minimizer_default_method", coq="min_default_method", params=[("method", O)], ret=O),
+    # equilibrium(): default, lower-casing, and the choice between the fixed-point methods and the root finders
+    dict(qual="equilibrium", coq="equilibrium_method_prelude", params=[],
+         fragment={"from": "method = _get_equilibrium_default_method(method)", "until": "return _RootFinder.apply(new_fcn, y0, fwd_fcn, alg_type, fwd_options, bck_options, len(params), *params, *pfunc.objparams())",
+                   "inputs": [("method", O)], "outputs": ["method", "alg_type"]},
+         skip=["fwd_options['method'] = method", "fwd_fcn = pfunc if method in _EQUIL_METHODS else new_fcn"],
+         globals=[("_EQUIL_METHODS", D(S, O))]),
+    # minimize(): default, lower-casing, optimiser or root finder
+    dict(qual="minimize", coq="minimize_method_prelude", params=[],
+         fragment={"from": "fwd_options['method'] = _get_minimizer_default_method(method)", "until": "@make_sibling(pfunc)",
+                   "inputs": [("method", O), ("fwd_options", D(S, O))], "outputs": ["method", "opt_method"]},
+         globals=[("_RF_METHODS", D(S, O))]),
+])
 UNITS["PyTensorPacker"] = ("xitorch/_utils/misc.py", [
     # tensors are modelled by their shapes: torch.numel(p) is the product of the shape, p.shape the shape itself
     dict(qual="TensorPacker.__init__", coq="tensorpacker_init", params=[("tensors", L(L(Z)))], shape_modelled=["p"],
@@ -1030,6 +1059,7 @@ RELEVANT = {
     "PyTensorPacker": ["C07", "C08"],
     "PyDispatch": ["C18"],
     "PyDispatchEig": ["C18"],
+    "PyDispatchRF": ["C18"],
 }
 LAST_INFO = {}
 
